@@ -348,7 +348,7 @@ def job_transform(job):
         job.errors.append(f"floating-point round-trip lemma: {r}")
 
 
-def replay_comparison(model, filt=False, window=None):
+def replay_comparison(model, filt=False, window=None, gap=False):
     """Real plot_production_comparison (matplotlib, Agg) on a small production table whose Days are not 0, 1, 2, ...:
     the three drawn curves against an independent run of the library's forward model on the documented time axis."""
     import warnings
@@ -367,6 +367,8 @@ def replay_comparison(model, filt=False, window=None):
     days = np.cumsum([max(d0[0], 15.0)] + [max(abs(d0[1] - d0[0]), 30.0)] * (n - 1))       # an offset start, monthly samples
     gas = np.array([900.0, 800.0, 0.0, 700.0, 650.0, 600.0])
     prs = np.array([3000.0, 2800.0, 2700.0, 2500.0, 2300.0, 2200.0])
+    if gap:
+        prs[4] = np.nan          # a producing day without a gauge reading: dropped by the filter, with its gas
     data = pd.DataFrame({"Days": days, "Gas": gas, "Pressure": prs})
     tau = float(model.get("tau") or 400.0)
     tau = min(max(tau, 50.0), 5000.0)
@@ -406,14 +408,18 @@ def replay_comparison(model, filt=False, window=None):
                             "inputs": {"tau": tau}}
 
 
-def job_comparison(job, filt, window=None):
+def job_comparison(job, filt, window=None, gap=False):
+    """`gap`: a producing day (Gas > 0) whose pressure reading is missing; with the row filter on it is dropped from every
+    curve, its gas included (cumulative production is that of the rows that are drawn)."""
     mod = load_sym("bluebonnet.forecast.forecast_pressure", pd=pd_shim.PD, plt=PltStub, FlowProperties=c18._flow_stub,
                    SinglePhaseReservoir=c18._ResStub, Parameters=c18.ParametersStub, Minimizer=c18.MinimizerStub, **SS.rebind())
     job.encoded(mod, "plot_production_comparison")
-    n = 3
+    n = 4 if gap else 3
     gas = [fresh(f"gas{k}", pos=True) for k in range(n)]
     prs = [fresh(f"pr{k}", pos=True) for k in range(n)]
     days = [fresh(f"day{k}", pos=True) for k in range(n)]
+    if gap:
+        prs[1] = pd_shim.NA
     frame = pd_shim.SymFrame()
     frame.cols = {"Days": SymArray(days, "f8"), "Gas": SymArray(gas, "f8"), "Pressure": SymArray(prs, "f8")}
     par = c18.ParametersStub()
@@ -435,20 +441,22 @@ def job_comparison(job, filt, window=None):
         ax1, ax2, log = pr.value
         rf = [e[1] for e in log if e[0] == "recovery_factor"]
         ok = len(ax1.lines) == 2 and len(ax2.lines) == 1 and len(rf) == 1
-        t = [Q(k) for k in range(n)] if filt else days
+        keep = [j for j in range(n) if not (gap and filt and j == 1)]
+        t = [Q(k) for k in range(len(keep))] if filt else days
         ts = [v / tau for v in t]
         bad = []
         if ok:
             cum, acc = [], Q(0)
-            for g in gas:
-                acc = acc + g
+            for j in keep:
+                acc = acc + gas[j]
                 cum.append(acc / M)
-            pshow = prs if window is None else list(SS.uniform_filter1d(SymArray(list(prs), "f8"), size=window).d)
+            prs_kept = [prs[j] for j in keep]
+            pshow = prs_kept if window is None else list(SS.uniform_filter1d(SymArray(list(prs_kept), "f8"), size=window).d)
             simulated_with = [e for e in log if e[0] == "simulate"]
             bad = [_same(ax1.lines[0]["x"], ts), _same(ax1.lines[0]["y"], rf[0]), _same(ax1.lines[1]["x"], ts), _same(ax1.lines[1]["y"], cum),
                    _same(ax2.lines[0]["x"], ts), _same(ax2.lines[0]["y"], pshow)]
-        job.prove(f"comparison[filter={filt}{',window=' + str(window) if window else ''}]/curves are (t/tau, simulated recovery), (t/tau, cumulative/M), (t/tau, frac-face pressure)[path{k}]",
-                  pr.pc + [T.b_or(*bad) if ok else T.b_const(True)], bound="3 rows, any data", replay=(replay_comparison, {"filt": filt, "window": window}))
+        job.prove(f"comparison[filter={filt}{',window=' + str(window) if window else ''}{',a producing day without a pressure reading' if gap else ''}]/curves are (t/tau, simulated recovery), (t/tau, cumulative/M), (t/tau, frac-face pressure)[path{k}]",
+                  pr.pc + [T.b_or(*bad) if ok else T.b_const(True)], bound=f"{n} rows, any data", replay=(replay_comparison, {"filt": filt, "window": window, "gap": gap}))
         job.prove(f"comparison[filter={filt}{',window=' + str(window) if window else ''}]/reach[path{k}]", pr.pc, expect="sat")
 
 
@@ -459,7 +467,7 @@ FALLBACK = [(replay_plot_history, {}), (replay_plot, {}), (replay_plot_after_den
 def jobs(tier):
     out = [("profiles", lambda j: job_profiles(j, 3, 4)), ("recovery-plots", lambda j: job_recovery_plots(j, 4)), ("transform", job_transform),
            ("comparison-filter", lambda j: job_comparison(j, True)), ("comparison-nofilter", lambda j: job_comparison(j, False)),
-           ("comparison-window2", lambda j: job_comparison(j, False, 2))]
+           ("comparison-window2", lambda j: job_comparison(j, False, 2)), ("comparison-filter-pressure-gap", lambda j: job_comparison(j, True, None, True))]
     if tier != "quick":
         out += [("profiles-big", lambda j: job_profiles(j, 4, 7)), ("recovery-plots-6", lambda j: job_recovery_plots(j, 6)),
                 ("profiles-6x12", lambda j: job_profiles(j, 6, 12)), ("recovery-plots-10", lambda j: job_recovery_plots(j, 10)),
